@@ -158,3 +158,143 @@ Example C04_example :
   /\ read_bytes a 4 18446744073709551613 = Err EOob
   /\ read_u16 a 5 = Err EOob /\ size a < USIZE_MAX1.
 Proof. vm_compute. repeat split. eexists. repeat split. Qed.
+
+(* ==== additions after review r1 (C04-1 stream block operations, C04-2 annotation accept conditions, C04-3 byte order) ==== *)
+From Mila Require Import Proofs.BinAccess3.
+
+(* ---- stream block READ, closed form: success with the block and cursor + count exactly when count bytes are left behind
+        the cursor; otherwise out of bounds, never a panic, and the cursor stands at the end of the data (the bytes before the
+        failing one have been consumed) or where it was if it already stood beyond the end.  All arguments in N. ---- *)
+Theorem C04_stream_read_bytes_spec : forall a pos count,
+  r_read_bytes a pos count =
+    if count <=? size a - pos
+    then (Ok (firstn (N.to_nat count) (skipn (N.to_nat pos) (a_data a))), pos + count)
+    else (Err EOob, pos + (size a - pos)).
+Proof. exact r_read_bytes_spec. Qed.
+(* converse of C04_stream_read_bytes: the positional block read at the cursor succeeds -> so does the stream read, same block *)
+Theorem C04_stream_read_bytes_complete : forall a pos count bs,
+  read_bytes a pos count = Ok bs -> r_read_bytes a pos count = (Ok bs, pos + count).
+Proof. exact r_read_bytes_complete. Qed.
+Theorem C04_stream_read_bytes_fail : forall a pos count,
+  1 <= count -> size a < pos + count -> r_read_bytes a pos count = (Err EOob, N.max pos (size a)).
+Proof. exact r_read_bytes_fail. Qed.
+(* count = 0 is where stream and positional reads differ: the stream reads nothing and succeeds wherever the cursor stands, the
+   positional call validates its address first *)
+Theorem C04_stream_read_bytes_zero : forall a pos,
+  r_read_bytes a pos 0 = (Ok [], pos) /\ (size a <= pos -> read_bytes a pos 0 = Err EOob).
+Proof. exact r_read_bytes_zero. Qed.
+
+(* ---- stream block WRITE (successive byte writes), closed form: everything written and cursor + |bs| exactly when bs fits
+        behind the cursor; otherwise out of bounds, never a panic - and the bytes that did fit HAVE been written (a failing
+        stream block write is not atomic: "changes nothing" holds for the positional write_bytes, C04_write_outside_is_oob, and for
+        each single byte write, not for the block), cursor at the end of the data; annotations untouched in every case ---- *)
+Theorem C04_stream_write_bytes_spec : forall bs a pos,
+  w_write_bytes a pos bs =
+    (if lenN bs <=? size a - pos then Ok tt else Err EOob,
+     set_data a (patched (a_data a) pos (firstn (N.to_nat (N.min (lenN bs) (size a - pos))) bs)),
+     pos + N.min (lenN bs) (size a - pos)).
+Proof. exact w_write_bytes_spec. Qed.
+(* for a non-empty block: the stream write is the positional block write at the cursor, both directions, cursor advance = length *)
+Theorem C04_stream_write_bytes : forall a pos bs a' p,
+  bs <> [] ->
+  (w_write_bytes a pos bs = (Ok tt, a', p) <-> write_bytes a pos bs = Ok a' /\ p = pos + lenN bs).
+Proof. exact w_write_bytes_ok_iff. Qed.
+Theorem C04_stream_write_bytes_fail : forall a pos bs,
+  bs <> [] -> size a < pos + lenN bs ->
+  w_write_bytes a pos bs =
+    (Err EOob, set_data a (patched (a_data a) pos (firstn (N.to_nat (size a - pos)) bs)), N.max pos (size a)).
+Proof. exact w_write_bytes_fail. Qed.
+Theorem C04_stream_write_bytes_never_panics : forall a pos bs k a' p, w_write_bytes a pos bs <> (Panic k, a', p).
+Proof. exact w_write_bytes_never_panics. Qed.
+Theorem C04_stream_write_bytes_annotations : forall a pos bs, same_annotations a (snd (fst (w_write_bytes a pos bs))).
+Proof. exact w_write_bytes_annotations. Qed.
+Theorem C04_stream_write_bytes_empty : forall a pos,
+  w_write_bytes a pos [] = (Ok tt, a, pos) /\ (size a <= pos -> write_bytes a pos [] = Err EOob).
+Proof. exact w_write_bytes_empty. Qed.
+(* signed stream reads: the positional signed read at the cursor *)
+Theorem C04_stream_read_signed_refines : forall a pos,
+  r_read_i8 a pos = (read_i8 a pos, if is_ok (read_i8 a pos) then pos + 1 else pos) /\
+  r_read_i16 a pos = (read_i16 a pos, if is_ok (read_i16 a pos) then pos + 2 else pos) /\
+  r_read_i32 a pos = (read_i32 a pos, if is_ok (read_i32 a pos) then pos + 4 else pos).
+Proof. exact r_read_signed_refines. Qed.
+
+(* ---- annotation writers / deleters: accepted exactly on a 4-byte cell inside the data ([inside a address 4]:
+        address < size /\ address + 4 <= size; C04_inside_true) - labels on any address <= size -, otherwise Err EOob; the
+        right-hand sides contain no Panic, so none of them panics; the new state is the old one with one map entry changed ---- *)
+Theorem C04_inside_true : forall a address w, inside a address w = true <-> address < size a /\ address + w <= size a.
+Proof. exact inside_true. Qed.
+Theorem C04_annotation_writes_bounds : forall a address,
+  (forall v, write_string a address v =
+     if inside a address 4
+     then Ok (set_text a (match v with Some s => am_set address s (a_text a) | None => am_del address (a_text a) end)) else Err EOob) /\
+  (forall v, write_pointer a address v =
+     if inside a address 4
+     then Ok (set_ptrs a (match v with Some p => am_set address p (a_ptrs a) | None => am_del address (a_ptrs a) end)) else Err EOob) /\
+  (forall s, write_c_string a address s =
+     if inside a address 4 then Ok (set_cstrs a (cs_push s address (a_cstrs a))) else Err EOob) /\
+  (forall ls, write_labels a address ls =
+     if address <=? size a then Ok (set_labels a (am_set address ls (a_labels a))) else Err EOob) /\
+  (forall l, write_label a address l =
+     if address <=? size a
+     then Ok (set_labels a (am_set address (match am_get address (a_labels a) with Some b => b ++ [l] | None => [l] end) (a_labels a)))
+     else Err EOob).
+Proof.
+  intros a address. split; [intros; apply write_string_spec|]. split; [intros; apply write_pointer_spec|].
+  split; [intros; apply write_c_string_spec|]. split; [intros; apply write_labels_spec | intros; apply write_label_spec].
+Qed.
+Theorem C04_annotation_deletes_bounds : forall a address,
+  delete_string a address = (if inside a address 4 then Ok (set_text a (am_del address (a_text a))) else Err EOob) /\
+  delete_pointer a address = (if inside a address 4 then Ok (set_ptrs a (am_del address (a_ptrs a))) else Err EOob) /\
+  delete_labels a address = (if inside a address 4 then Ok (set_labels a (am_del address (a_labels a))) else Err EOob) /\
+  (forall index, delete_label a address index =
+     if inside a address 4
+     then match am_get address (a_labels a) with
+          | Some bucket => if index <? N.of_nat (length bucket)
+                           then Ok (set_labels a (am_set address (remove_nth (N.to_nat index) bucket) (a_labels a)))
+                           else Err ELabelIndex
+          | None => Ok a
+          end
+     else Err EOob).
+Proof.
+  intros a address. split; [apply delete_string_spec|]. split; [apply delete_pointer_spec|]. split; [apply delete_labels_spec|].
+  intros; apply delete_label_spec.
+Qed.
+
+(* ---- byte order pinned against an independent description: byte i of the w-byte form of v is the base-256 digit number
+        i (little endian: least significant byte at the lowest address) or w-1-i (big endian: most significant byte first);
+        swapping LE and BE would falsify these while keeping the codec inverse lemmas true ---- *)
+Theorem C04_endian_digits : forall e (w : nat) v (i : nat), (i < w)%nat ->
+  nth i (enc e w v) 0 = (v / 256 ^ N.of_nat (match e with LE => i | BE => w - 1 - i end)) mod 256.
+Proof. exact enc_digits. Qed.
+Theorem C04_endian_be_is_reversed_le : forall (w : nat) v, enc BE w v = rev (enc LE w v).
+Proof. exact enc_be_is_rev_le. Qed.
+Theorem C04_endian_u32_bytes : forall v,
+  enc LE 4 v = [v mod 256; v / 256 mod 256; v / 65536 mod 256; v / 16777216 mod 256] /\
+  enc BE 4 v = [v / 16777216 mod 256; v / 65536 mod 256; v / 256 mod 256; v mod 256].
+Proof. exact enc_u32_bytes. Qed.
+Theorem C04_endian_u16_bytes : forall v,
+  enc LE 2 v = [v mod 256; v / 256 mod 256] /\ enc BE 2 v = [v / 256 mod 256; v mod 256].
+Proof. exact enc_u16_bytes. Qed.
+
+(* non-vacuity: 4 data bytes; a 6-byte stream write from cursor 2 fails out of bounds AFTER writing the two bytes that fit;
+   0x01020304 big-endian is 1 2 3 4, little-endian 4 3 2 1 *)
+Example C04_example_stream_block :
+  w_write_bytes (allocate_at_end (ba_new LE) 4) 2 [9; 8; 7; 6; 5; 4] =
+    (Err EOob, set_data (allocate_at_end (ba_new LE) 4) [0; 0; 9; 8], 4)
+  /\ r_read_bytes (allocate_at_end (ba_new LE) 4) 1 5 = (Err EOob, 4)
+  /\ r_read_bytes (allocate_at_end (ba_new LE) 4) 7 0 = (Ok [], 7)
+  /\ enc BE 4 16909060 = [1; 2; 3; 4] /\ enc LE 4 16909060 = [4; 3; 2; 1].
+Proof. vm_compute. repeat split. Qed.
+
+(* signed typed accessors (review r1, C04-3): the matching signed read returns the written value, for every value of the type;
+   signed stream writes are the positional signed write at the cursor *)
+Theorem C04_signed_read_after_write : forall a address a',
+  (forall z, (-128 <= z < 128)%Z -> write_i8 a address z = Ok a' -> read_i8 a' address = Ok z) /\
+  (forall z, (-32768 <= z < 32768)%Z -> write_i16 a address z = Ok a' -> read_i16 a' address = Ok z) /\
+  (forall z, (-2147483648 <= z < 2147483648)%Z -> write_i32 a address z = Ok a' -> read_i32 a' address = Ok z).
+Proof. exact signed_read_after_write. Qed.
+Theorem C04_stream_write_signed_refines : forall a pos z,
+  w_write_i8 a pos z = (unit_of (write_i8 a pos z), arch_of (write_i8 a pos z) a, if is_ok (write_i8 a pos z) then pos + 1 else pos) /\
+  w_write_i16 a pos z = (unit_of (write_i16 a pos z), arch_of (write_i16 a pos z) a, if is_ok (write_i16 a pos z) then pos + 2 else pos) /\
+  w_write_i32 a pos z = (unit_of (write_i32 a pos z), arch_of (write_i32 a pos z) a, if is_ok (write_i32 a pos z) then pos + 4 else pos).
+Proof. exact w_write_signed_refines. Qed.
